@@ -510,7 +510,7 @@ func init() {
 			case string:
 				n, err := strconv.Atoi(s)
 				if err != nil {
-					return tuple{0, errVal(err.Error())}
+					return tuple{n, numError(fr, "Atoi", s, err)}
 				}
 				return tuple{n, iface{}}
 			case opaqueStr:
@@ -541,7 +541,7 @@ func init() {
 			case string:
 				f, err := strconv.ParseFloat(s, args[1].(int))
 				if err != nil {
-					return tuple{f, errVal(err.Error())}
+					return tuple{f, numError(fr, "ParseFloat", s, err)}
 				}
 				return tuple{f, iface{}}
 			case opaqueStr:
@@ -971,4 +971,72 @@ func strSig(v value) string {
 		sb.WriteString("," + byteTerm(b))
 	}
 	return sb.String()
+}
+
+func init() {
+	rnd := func(name, mode string, native func(float64) float64) {
+		externals["math."+name] = func(fr *frame, a []value) value {
+			if f, ok := a[0].(symF); ok {
+				return newF(64, "(fp.roundToIntegral "+mode+" "+f.t+")")
+			}
+			return native(a[0].(float64))
+		}
+	}
+	rnd("Floor", "RTN", math.Floor)
+	rnd("Ceil", "RTP", math.Ceil)
+	rnd("Trunc", "RTZ", math.Trunc)
+	externals["math.Round"] = func(fr *frame, a []value) value {
+		if f, ok := a[0].(symF); ok {
+			return newF(64, "(fp.roundToIntegral RNA "+f.t+")")
+		}
+		return math.Round(a[0].(float64))
+	}
+	// errors.Is / errors.As walk the Unwrap chain (the real ones need reflectlite)
+	externals["errors.Is"] = func(fr *frame, a []value) value {
+		err, target := a[0], a[1]
+		for depth := 0; depth < 20; depth++ {
+			ie, ok := err.(iface)
+			if !ok || ie.t == nil {
+				return false
+			}
+			if it, ok := target.(iface); ok && it.t != nil && types.Identical(ie.t, it.t) && types.Comparable(ie.t) {
+				if r, ok2 := symEquals(ie.t, ie.v, it.v).(bool); ok2 && r {
+					return true
+				}
+			}
+			m := fr.i.prog.LookupMethod(ie.t, nil, "Unwrap")
+			if m == nil {
+				return false
+			}
+			err = call(fr.i, fr, token.NoPos, m, []value{ie.v})
+		}
+		return false
+	}
+}
+
+// numError builds the *strconv.NumError that strconv returns (so that errors.Is / type
+// switches on it behave as with the real package).
+func numError(fr *frame, fn, num string, native error) value {
+	sp := fr.i.prog.ImportedPackage("strconv")
+	ne, ok := native.(*strconv.NumError)
+	if sp == nil || !ok {
+		return errVal(native.Error())
+	}
+	nt := sp.Type("NumError").Type()
+	cell := zero(nt)
+	st := cell.(structure)
+	st[0], st[1] = fn, num
+	var g *ssa.Global
+	switch ne.Err {
+	case strconv.ErrRange:
+		g, _ = sp.Members["ErrRange"].(*ssa.Global)
+	case strconv.ErrSyntax:
+		g, _ = sp.Members["ErrSyntax"].(*ssa.Global)
+	}
+	if g != nil {
+		st[2] = *fr.i.globals[g]
+	} else {
+		st[2] = errVal(ne.Err.Error())
+	}
+	return iface{t: types.NewPointer(nt), v: &cell}
 }
